@@ -15,8 +15,9 @@ Streams of cases (each goes through chk.decide with its own guard map):
   site1   EndpointParameterProcessor.process_parameters with extract_url_variables forced to two orders
   site2   RenderContext.add_typing_imports_for_type with the word set forced to two orders + rendered imports
 
-VERIF_SRC_OVERRIDE=<dir containing pyopenapi_gen/> runs everything against a private copy of the source
-(mutation self-tests; see selftest_mutations()).  /repo is never written.
+The implementation under test is framework.REPO (VERIF_REPO_ROOT, default /repo).  Mutation self-tests:
+`python harness/prop_C09.py mutant <name>` copies REPO/src to build/mut/<name>/src with one seeded edit; run
+`VERIF_REPO_ROOT=build/mut/<name> ./check C09` on it.  /repo is never written.
 """
 from __future__ import annotations
 
@@ -35,11 +36,7 @@ from concurrent.futures import ThreadPoolExecutor
 from pathlib import Path
 from typing import Any
 
-SRC_OVERRIDE = os.environ.get("VERIF_SRC_OVERRIDE")
-if SRC_OVERRIDE:
-    sys.path.insert(0, SRC_OVERRIDE)
-
-from framework import BUILD, PY, Check, cbool, clist, cpair, cstr, load_corpus  # noqa: E402
+from framework import BUILD, PY, REPO, Check, cbool, clist, cpair, cstr, load_corpus
 
 SCRATCH = BUILD / "c09"
 
@@ -58,11 +55,10 @@ TRUSTED = [
 
 
 # =====================================================================================================
-# running the real generator (own helpers: honour VERIF_SRC_OVERRIDE)
+# running the real generator (fresh subprocess under a chosen PYTHONHASHSEED, or this warm interpreter)
 def gen_env(hashseed: str) -> dict:
     env = dict(os.environ)
-    src = SRC_OVERRIDE or "/repo/src"
-    env["PYTHONPATH"] = f"{src}:{Path(__file__).resolve().parent}"
+    env["PYTHONPATH"] = f"{REPO}/src:{Path(__file__).resolve().parent}"
     env["PYTHONHASHSEED"] = hashseed
     env["PYOPENAPI_GEN_VERIF"] = "1"
     env["PYTHONDONTWRITEBYTECODE"] = "1"
@@ -948,10 +944,10 @@ MUTATIONS = {
 
 def make_mutant(name: str) -> Path:
     rel, old, new = MUTATIONS[name]
-    dst = BUILD / "mut" / name / "src"
+    dst = (BUILD / "mut" / name / "src").resolve()
     if dst.exists():
         shutil.rmtree(dst)
-    shutil.copytree("/repo/src", dst, ignore=shutil.ignore_patterns("__pycache__", "*.egg-info"))
+    shutil.copytree(REPO / "src", dst, ignore=shutil.ignore_patterns("__pycache__", "*.egg-info"))
     p = dst / "pyopenapi_gen" / rel
     t = p.read_text()
     assert t.count(old) >= 1, f"mutation {name}: anchor not found"
